@@ -524,6 +524,7 @@ func (r *collection) addService(service any, lifetime Lifetime, opts ...AddOptio
 				IsInstance:      false,
 				isFunc:          descriptor.isFunc,
 				isResultObject:  true,
+				registration:    descriptor.registration,
 				resultFields:    descriptor.resultFields,
 				isParamObject:   descriptor.isParamObject,
 				paramFields:     descriptor.paramFields,
@@ -567,6 +568,7 @@ func (r *collection) addService(service any, lifetime Lifetime, opts ...AddOptio
 					As:               descriptor.As,
 					IsInstance:       false,
 					MultiReturnIndex: ret.Index,
+					registration:     descriptor.registration,
 					isFunc:           descriptor.isFunc,
 					isParamObject:    descriptor.isParamObject,
 					paramFields:      descriptor.paramFields,
@@ -621,6 +623,7 @@ func (r *collection) addService(service any, lifetime Lifetime, opts ...AddOptio
 				IsInstance:       descriptor.IsInstance,
 				Instance:         descriptor.Instance,
 				MultiReturnIndex: descriptor.MultiReturnIndex,
+				registration:     descriptor.registration,
 				isFunc:           descriptor.isFunc,
 				isResultObject:   descriptor.isResultObject,
 				resultFields:     descriptor.resultFields,
